@@ -4,6 +4,7 @@ import os
 import struct
 import subprocess
 import threading
+import time
 
 from vf import build, harness
 from vf.core import HarnessError
@@ -127,6 +128,7 @@ class Runner:
         self.rss = rss_limit_mb
         self.runmany, self.fs = launcher()
         self.n = 0
+        self.retries = 0
         self.lock = threading.Lock()
 
     def run_shard(self, b, tool, cases, mode=None, timeout_ms=None):
@@ -146,7 +148,15 @@ class Runner:
         env = tool_env(b)
         env["C15FS_SO"] = self.fs
         cmd = [self.runmany, mode, wd, cf, rf, str(timeout_ms or self.timeout_ms), str(self.rss), b[tool]]
-        p = subprocess.run(cmd, env=env, stdout=subprocess.PIPE, stderr=subprocess.PIPE, text=True)
+        # the builds under .build/<flavour> are shared: another check starting up may relink the tool
+        # while this shard launches it (exec then fails for a moment); such a shard is simply run again
+        for attempt in range(4):
+            p = subprocess.run(cmd, env=env, stdout=subprocess.PIPE, stderr=subprocess.PIPE, text=True)
+            if p.returncode == 0 or "did not come up" not in p.stderr:
+                break
+            with self.lock:
+                self.retries += 1
+            time.sleep(5 * (attempt + 1))
         if p.returncode != 0:
             raise HarnessError("runmany failed (%s): %s" % (p.returncode, p.stderr[-2000:]))
         lines = open(rf).read().splitlines()
